@@ -231,6 +231,10 @@ func runC14(c *harness.Ctx, p *spec.Path, doc string, useNum bool) {
 	key := text + "\x00" + doc
 
 	src := lib.Decode(doc, useNum)
+	if c.K%8 == 5 {
+		src, _ = lib.HashCons(src) // equal sub-containers are one map / slice; SPEC runs on an unshared copy
+		c.Cover("doc:shared-sub-containers")
+	}
 	ds, produced := map[uintptr]bool{}, map[uintptr]bool{}
 	docSlices(src, ds)
 	recL := lib.NewRecorder()
